@@ -37,7 +37,7 @@ def shipped(acc):
 
 def cse_guards(acc, tier):
     """M: CseGuards.tla, the covering rule under which a repeated subexpression may be bound above the conditions around
-    its instances, checked by TLC over all trees of depth 2 (safe under the rule that examines the conditions above *any*
+    its instances, checked by TLC over all 314,436 trees of depth 2 (conditions are trees themselves) (safe under the rule that examines the conditions above *any*
     instance; the rule that examines only those above the first instance is refuted: non-vacuity).  R: every tree with two
     or more instances is compiled as a function body and run on the eight (guard, guard, failing?) rows."""
     r = core.run_tlc("MC_CseGuards", "MC_CseGuards_any.cfg", "C02_cseguards", workers=8, timeout=1500, coverage=False)
@@ -50,7 +50,7 @@ def cse_guards(acc, tier):
             raise core.ToolError(f"CseGuards is vacuous: {what}")
     acc.notes.append("CseGuards non-vacuity: the first-instance-only covering rule violates HoistingIsSafe, and some trees are saturated")
     out = os.path.join(core.BUILD, "C02_cseguards.report.json")
-    core.run_vh(["replay-cse", "--in", r.out_path, "--out", out, "--builds", ",".join(ALL), "--take", "250" if tier == "quick" else "100000"], timeout=6000)
+    core.run_vh(["replay-cse", "--in", r.out_path, "--out", out, "--builds", ",".join(ALL), "--take", "600" if tier == "quick" else "12000"], timeout=6000)
     os.remove(r.out_path)
     rep = core.load_json(out)
     if rep["evaluations"] == 0:
